@@ -58,6 +58,21 @@ the argument, original changed]; model-compared) and the hist dimension of conv 
 every converter already is an object of the class).  Every snapshot of a dataset now includes what
 the object holds BESIDES its elements (names of all instance attributes, values of those the
 library adds: coordinate system, frame look-up database, dimension index pointers ...).
+Strengthening round 6: every constructed object is now also READ BACK with
+reading_validation_mode = RAISE (every element accessed), and numbers that are written as text
+(DS 16 / IS 12 characters) are checked against their value representation independently of pydicom
+(pydicom 3 does not validate float-valued DS when writing).  New kinds: ctor_num (every entry point
+that stores a floating-point ARGUMENT as a decimal string - SCImage pixel_spacing incl. from_ref_dataset,
+PixelMeasuresSequence, PlanePosition / PlaneOrientationSequence, VOI / modality LUT transformations,
+NumContentItem, TcoordContentItem, seg / pm with caller-made geometry, seg from an hd.Volume, the
+functional groups a VolumeGeometry hands out, GSPS windows - x numbers whose shortest repr has 17-23
+characters x the form the caller holds them in; oracle only), geom (create_affine_matrix_from_components /
+VolumeGeometry.from_components / Volume.from_components x 16 FORMS of the direction matrix x spacing x
+position / center x direction / patient orientation + every guard: [an argument changed, affine];
+model-compared for exact numbers) and geom_form (Volume / VolumeGeometry from an affine and from image
+attributes, rotation / affine helpers, the six coordinate transformers incl. their call, 18 conversions of
+a Volume on the caller's array x form / layout of every array argument; oracle only: memory layout and
+aliasing are outside the model).  The valid kind now also covers VR DS and IS (model-compared).
 """
 import copy as _copy
 import io
@@ -72,7 +87,7 @@ from common import Err, catch, zl, zlit
 
 PROPERTY = 'C20'
 PROPS_FILE = 'C20_Props.v'
-COQ_IMPORTS = ['C20_Model', 'C20_Model_Ref']
+COQ_IMPORTS = ['C20_Model', 'C20_Model_Ref', 'C20_Model_Num']
 TOL = None
 ORACLE_PREMISES = [
     'call contract: a nested converter called with copy=True only allocates; called with copy=False it rewrites '
@@ -112,6 +127,18 @@ ORACLE_PREMISES = [
     'copies of objects: deepcopy / pickle build the new object from a deep copy of what __getstate__ returns and '
     'write to nothing else; dict.copy() is a new dictionary (OCopy), del / item assignment write into the dictionary '
     'they are applied to (OInplace) - hand-transcribed from image.py _Image.__getstate__, tied by the obj_copy kind',
+    'create_affine_matrix_from_components: numbers as exact dyadic rationals (quarters / eighths; float arithmetic is '
+    'exact on them), direction entries integers (the tolerance of _is_matrix_orthogonal cannot matter), ownership '
+    'classes np.array = new array, np.asarray = the same array for a float64 ndarray, reshape = view, a * b = new '
+    'array, a *= b = write (hand-transcribed, tied by the geom kind incl. write-protected and view arguments); '
+    'inexact numbers (rotations, spacing 1/3) and every other geometry entry point are compared with a numpy '
+    'reference only; which memory layout an array has is outside the model',
+    'decimal strings: pydicom VALIDATORS[DS] / [IS] transcribed by hand (ASCII digits only), tied by the valid kind; '
+    'the strings C\'s %.kf / %.ke produce for a float (number of integer digits = floor(log10|x|) + 1, no carry into a '
+    'further digit) and repr(float) are NOT modelled: they enter the theorems as the shape / length hypotheses of '
+    'C20_ds_auto_format_fills_16; that every float the library stores in a DS element went through '
+    'DS(..., auto_format=True) / format_number_as_ds is exercised (kind ctor_num, _validate_all on every object of '
+    'every ctor kind), not proved',
 ]
 MODELLED = ('all from_dataset/from_sequence/extract_from_dataset/_from_dataset_* classmethods under src/highdicom '
             '(effect terms, regenerated each run); valuerep._check_code_string/_check_short_string/_check_long_string/'
@@ -127,10 +154,13 @@ MODELLED = ('all from_dataset/from_sequence/extract_from_dataset/_from_dataset_*
             'derived SpacingBetweenSlices is recorded); pr.content._add_displayed_area_attributes (selection of the '
             'smallest level, order of the caller\'s list); pr.content._add_softcopy_voi_lut_attributes (guards, '
             'per-image accumulators of referenced frames with their ownership, overlap check, the sequence stored); '
-            'image._Image.__getstate__ as operations on the instance dictionary of the original')
+            'image._Image.__getstate__ as operations on the instance dictionary of the original; '
+            'spatial.create_affine_matrix_from_components (guards in source order, affine for exact numbers, what '
+            'happens to the caller\'s direction array); pydicom VALIDATORS[DS], VALIDATORS[IS] and the fixed / '
+            'scientific shapes of format_number_as_ds')
 STRATA = ['guard', 'valid', 'uid_uuid', 'uid_hd', 'uid_valid', 'uid_unique', 'conv', 'ctor',
           'ctor_layout', 'ctor_multi', 'ctor_opt', 'lut', 'pyr_ids', 'pm_native', 'sop_init', 'seg_plane',
-          'ctor_src', 'seg_measures', 'pr_area', 'pr_voi', 'obj_copy']
+          'ctor_src', 'seg_measures', 'pr_area', 'pr_voi', 'obj_copy', 'ctor_num', 'geom', 'geom_form']
 NOT_EXECUTED = ['SpecimenDescription.from_dataset at run time (substitute attribute table has no specimen module tree)',
                 'JPEG 2000 / JPEG-LS transfer syntaxes in the ctor kinds',
                 'non-native byte order for seg / sc pixel arrays and integer pm arrays is REFUSED by the library '
@@ -138,6 +168,10 @@ NOT_EXECUTED = ['SpecimenDescription.from_dataset at run time (substitute attrib
                 'LUT tables are accepted in that byte order',
                 'LegacyConvertedEnhanced* images as SOURCE of a segmentation / parametric map (the substitute attribute '
                 'table gives them no FrameOfReferenceUID); AdvancedBlendingPresentationState',
+                'ReferenceToPixelTransformer / ReferenceToImageTransformer / PixelToPixelTransformer / '
+                'ImageToImageTransformer refuse numpy arrays for image_position / image_orientation / pixel_spacing '
+                '(TypeError "must be a sequence"; the other two transformers and the affine helpers accept them): '
+                'counted as refused, inputs checked unchanged',
                 'objects read with lazy_frame_retrieval=True as argument of a conversion / copy (observation, not counted: '
                 '_build_luts resets _file_reader, so from_dataset(copy=False) of a lazily read image drops its frame '
                 'access and the copy made with copy=True has neither PixelData nor a reader)']
@@ -168,10 +202,18 @@ RULE = ('guard/valid: strings over a boundary alphabet (upper, lower, digit, spa
         'image x list / tuple x window / VOI LUT; obj_copy: class (Image ct / multi-frame / tiled, Segmentation x3, '
         'SR document, annotations, coded concept, content item) x history (plain, converted with / without copying, '
         'read, constructed) x operation (copy True / default / False, deepcopy, pickle), twice; conv also with an '
-        'argument that already is an object of the class. '
+        'argument that already is an object of the class; valid also DS / IS: fixed / scientific / integer '
+        'numbers of 1..17 digits with signs, blanks, stray characters + the reprs of 1/3, 0.1+0.2 ...; ctor_num: 12 '
+        'entry points x 16 numbers (repr of 3..23 characters: 1/3, 0.1+0.2, 2/7, 25.4/600, 1e16/3, 1e-7/3, pi, float32(0.1), '
+        'e+22, e+100, subnormal) x form (float, numpy float64 / float32 scalar, array, list, tuple, int); geom: 3 entry '
+        'points x 16 forms of the direction (nested / flat list / tuple, float64 C / F / view / transposed / flat / flat '
+        'strided view / write-protected, float32, int64, longdouble, byte-swapped) x 7 forms of spacing / position x '
+        'signed permutations and rotations x dyadic / thirds / unit / scalar spacing x position / center x patient '
+        'orientation + 30 guard violations; geom_form: 13 entry points x 9 matrix forms / 7 vector forms / 5 coordinate '
+        'layouts x array layout and dtype of the volume. '
         'non-trivial = accepted value / changed class / written file')
 
-CTOR_KINDS = ('ctor', 'ctor_layout', 'ctor_multi', 'ctor_opt', 'ctor_src')
+CTOR_KINDS = ('ctor', 'ctor_layout', 'ctor_multi', 'ctor_opt', 'ctor_src', 'ctor_num')
 VRS = ['CS', 'SH', 'LO', 'ST', 'LT']
 LIMIT = {'CS': 16, 'SH': 16, 'LO': 64, 'ST': 1024, 'LT': 10240}
 
@@ -1095,6 +1137,10 @@ def _b_sc(rng, opt=None):
         a = np.asfortranarray(a)
 
     tskw = {'transfer_syntax_uid': '1.2.840.10008.1.2.5'} if opt.get('ts') == 'rle' else {}
+    spacing = None          # the optional physical pixel spacing: short and long float reprs (see kind ctor_num)
+    if rng.random() < 0.5:
+        spacing = rng.choice([[0.5, 0.5], (1 / 3, 0.25), [0.1 + 0.2, 2 / 7], (25.4 / 600, 25.4 / 600), [2, 1]])
+        tskw = dict(tskw, pixel_spacing=spacing)
 
     def make():
         return hd.sc.SCImage(a, pi, ba, 'PATIENT', hd.UID(), hd.UID(), 1, hd.UID(), 1, 'm', patient_id='p',
@@ -1103,7 +1149,12 @@ def _b_sc(rng, opt=None):
                              referring_physician_name='x^y', patient_orientation=('L', 'P'), **tskw)
 
     def post(obj, back):
-        if tskw:
+        if spacing is not None:
+            d = _num_close(back.PixelSpacing, spacing, 'PixelSpacing') if 'PixelSpacing' in back else \
+                'PixelSpacing is not in the file'
+            if d:
+                return d
+        if 'transfer_syntax_uid' in tskw:
             got = back.pixel_array
             return None if np.array_equal(got.reshape(expected.shape), expected) else \
                 'decoded RLE PixelData does not hold the values of the pixel array passed in'
@@ -1111,7 +1162,7 @@ def _b_sc(rng, opt=None):
         if not np.array_equal(got.reshape(expected.shape), expected):
             return 'PixelData does not hold the values of the pixel array passed in'
         return None
-    return [a], make, post
+    return [a] + ([spacing] if spacing is not None else []), make, post
 
 
 def _b_sr(cls_name):
@@ -1355,6 +1406,264 @@ def _b_generated_ids(kind):
     return build
 
 
+# ---- numbers that end up as text (kind ctor_num) ----------------------------------
+# Floating-point ARGUMENTS whose shortest repr is longer than the 16 characters of a Decimal String (results
+# of ordinary arithmetic: 1/3, 0.1 + 0.2, 25.4 / 600 ...) next to short ones, in every form a caller holds
+# a number in.  What the library stores must be writable AND readable under strict validation and must be
+# the number that was passed (to the precision 16 characters allow).
+NUM_VALUES = {
+    'half': 0.5, 'whole': 2.0, 'third': 1 / 3, 'sum': 0.1 + 0.2, 'sevenths': 2 / 7, 'dpi': 25.4 / 600,
+    'large': 123456.78912345678, 'tiny': 1.2345678912345678e-05, 'huge': 1e16 / 3, 'micro': 1e-07 / 3,
+    'pi': 3.141592653589793, 'f32': 0.10000000149011612, 'exp22': 1.2345678912345678e+22, 'len17': 1e15 / 3,
+    'exp100': 1.2345678912345678e+100, 'subnormal': 4.9406564584124654e-321,
+}
+NUM_LONG = [k for k, v in sorted(NUM_VALUES.items()) if len(repr(v)) > 16]
+NUM_FORMS = ['float', 'np64', 'np32', 'array', 'list', 'tuple', 'int']
+
+
+def _num_scalar(x, form):
+    import numpy as np
+    if form == 'np32':
+        return np.float32(x)
+    if form in ('np64', 'array'):
+        return np.float64(x)
+    if form == 'int':
+        return int(x) if abs(x) >= 1 else 1
+    return float(x)
+
+
+def _num_seq(xs, form):
+    """Several numbers as one argument: list / tuple of floats, of numpy scalars, or an array."""
+    import numpy as np
+    if form == 'array':
+        return np.array([float(x) for x in xs], dtype=np.float64)
+    vals = [_num_scalar(x, form) for x in xs]
+    return tuple(vals) if form in ('tuple', 'np64') else vals
+
+
+def _num_close(got, want, what):
+    """The number stored is the number passed, to the precision a decimal string of 16 characters has (>= 9 digits)."""
+    for g, w in zip(got, want):
+        g, w = float(g), float(w)
+        if abs(g - w) > 1e-8 * abs(w):
+            return f'{what}: {g!r} is stored for the argument {w!r}'
+    return None
+
+
+def _ds_values(ds, acc):
+    from pydicom.multival import MultiValue
+    for e in ds:
+        if e.VR == 'SQ':
+            for it in e.value:
+                _ds_values(it, acc)
+        elif e.VR == 'DS' and e.value not in (None, ''):
+            acc.setdefault(e.keyword, []).extend(
+                list(e.value) if isinstance(e.value, (MultiValue, list, tuple)) else [e.value])
+    return acc
+
+
+def _b_num(target):
+    def build(rng, opt=None):
+        import math
+        import numpy as np
+        import highdicom as hd
+        import synth
+        from highdicom import sr
+        from pydicom.sr.codedict import codes
+        opt = opt or {}
+        form = opt.get('numform') or rng.choice(NUM_FORMS[:6])
+        x = NUM_VALUES[opt.get('num') or rng.choice(sorted(NUM_VALUES))]
+        y = NUM_VALUES[rng.choice(sorted(NUM_VALUES))] if rng.random() < 0.6 else rng.choice([0.5, 1.0, 2 * x, x / 3])
+        z = rng.choice([x, y, 0.75, x + y])
+        fx = lambda v: float(_num_scalar(v, form))       # the VALUE handed over (float32 / int forms change it)
+        expect = {}                                          # keyword -> numbers that must be stored there
+        args = []
+
+        def owned(v):
+            args.append(v)
+            return v
+        if target == 'sc':
+            a = np.array([rng.randint(0, 255) for _ in range(12)], np.uint8).reshape(3, 4)
+            ps = owned(_num_seq([x, y], form))
+            expect['PixelSpacing'] = [fx(x), fx(y)]
+            ref = synth.ct_frame((0.0, 0.0, 0.0), 3, 4)
+            via_ref = rng.random() < 0.4
+            tskw = {'transfer_syntax_uid': rng.choice(['1.2.840.10008.1.2', '1.2.840.10008.1.2.1', '1.2.840.10008.1.2.5'])}
+            args += [a, ref]
+
+            def make():
+                if via_ref:
+                    return hd.sc.SCImage.from_ref_dataset(
+                        ref, a, 'MONOCHROME2', 8, 'PATIENT', hd.UID(), 1, hd.UID(), 1, 'm', pixel_spacing=ps,
+                        patient_orientation=('L', 'P'), **tskw)
+                return hd.sc.SCImage(a, 'MONOCHROME2', 8, 'PATIENT', hd.UID(), hd.UID(), 1, hd.UID(), 1, 'm',
+                                     patient_id='p', patient_name='a^b', pixel_spacing=ps,
+                                     patient_orientation=('L', 'P'), **tskw)
+        elif target == 'measures':
+            ps = owned(_num_seq([x, y], form))
+            th = owned(_num_scalar(z, form))
+            sb = owned(rng.choice([None, _num_scalar(x + y, form)]))
+            expect = {'PixelSpacing': [fx(x), fx(y)], 'SliceThickness': [fx(z)]}
+            if sb is not None:
+                expect['SpacingBetweenSlices'] = [fx(x + y)]
+
+            def make():
+                return hd.PixelMeasuresSequence(pixel_spacing=ps, slice_thickness=th, spacing_between_slices=sb)
+        elif target == 'plane_position':
+            slide = rng.random() < 0.5
+            pos = owned(_num_seq([x, -y, z], form))
+            if slide:
+                expect = {'XOffsetInSlideCoordinateSystem': [fx(x)], 'YOffsetInSlideCoordinateSystem': [fx(-y)],
+                          'ZOffsetInSlideCoordinateSystem': [fx(z)]}
+            else:
+                expect = {'ImagePositionPatient': [fx(x), fx(-y), fx(z)]}
+
+            def make():
+                if slide:
+                    return hd.PlanePositionSequence('SLIDE', pos, pixel_matrix_position=(1, 1))
+                return hd.PlanePositionSequence('PATIENT', pos)
+        elif target == 'plane_orientation':
+            ang = x if abs(x) < 7 else math.fmod(x, 3.0)
+            cs = [math.cos(ang), math.sin(ang), 0.0, -math.sin(ang), math.cos(ang), 0.0]
+            if form == 'int':
+                cs = [0.0, 1.0, 0.0, -1.0, 0.0, 0.0]
+            io = owned(_num_seq(cs, form))
+            system = rng.choice(['PATIENT', 'SLIDE'])
+            expect = {'ImageOrientation' + system.capitalize(): [fx(v) for v in cs]}
+
+            def make():
+                return hd.PlaneOrientationSequence(system, io)
+        elif target == 'voi':
+            many = rng.random() < 0.4
+            wc = owned(_num_seq([x, z], 'list' if form in ('array', 'np64', 'np32') else form) if many
+                       else _num_scalar(x, form))
+            ww = owned(_num_seq([y, x + y], 'list' if form in ('array', 'np64', 'np32') else form) if many
+                       else _num_scalar(y, form))
+            soft = rng.random() < 0.5
+            if many:
+                f2 = (lambda v: v) if form in ('array', 'np64', 'np32') else fx
+                expect = {'WindowCenter': [f2(x), f2(z)], 'WindowWidth': [f2(y), f2(x + y)]}
+            else:
+                expect = {'WindowCenter': [fx(x)], 'WindowWidth': [fx(y)]}
+
+            def make():
+                cls = hd.pr.SoftcopyVOILUTTransformation if soft else hd.VOILUTTransformation
+                return cls(window_center=wc, window_width=ww)
+        elif target == 'modality':
+            ri = owned(_num_scalar(-x, form) if form != 'int' else -3)
+            rs = owned(_num_scalar(y, form))
+            expect = {'RescaleIntercept': [fx(-x) if form != 'int' else -3.0], 'RescaleSlope': [fx(y)]}
+
+            def make():
+                return hd.ModalityLUTTransformation(rescale_intercept=ri, rescale_slope=rs, rescale_type='US')
+        elif target == 'num_item':
+            v = owned(_num_scalar(rng.choice([x, -x]), form))
+            tc = rng.random() < 0.3
+            offs = owned(_num_seq([x, y], form))
+            expect = {'ReferencedTimeOffsets': [fx(x), fx(y)]} if tc else {'NumericValue': [float(v)]}
+
+            def make():
+                if tc:
+                    return sr.TcoordContentItem(codes.DCM.Manifest, 'SEGMENT', referenced_time_offsets=offs,
+                                                relationship_type='CONTAINS')
+                return sr.NumContentItem(codes.SCT.Volume, v, codes.UCUM.Millimeter, relationship_type='CONTAINS')
+        elif target in ('seg_geom', 'pm_geom'):
+            # plane positions / orientation / pixel measures passed by the caller, all of them awkward numbers:
+            # frames spaced by x along the normal of a rotated plane (the derived SpacingBetweenSlices too)
+            n, rows, cols = rng.randint(2, 3), 3, 4
+            step = x if 1e-3 < x < 1e3 else z if 1e-3 < z < 1e3 else 1 / 3
+            ang = rng.choice([0.3, 1 / 3, math.pi / 7])
+            cs = [math.cos(ang), math.sin(ang), 0.0, -math.sin(ang), math.cos(ang), 0.0]
+            src = synth.ct_series(n, rows, cols)
+            positions = [hd.PlanePositionSequence('PATIENT', [y, -y, k * step]) for k in range(n)]
+            orientation = hd.PlaneOrientationSequence('PATIENT', cs)
+            measures = hd.PixelMeasuresSequence(pixel_spacing=_num_seq([x, y], form) if x < 1e6 and y < 1e6 else [x, 0.5],
+                                                slice_thickness=_num_scalar(step, 'float'))
+            args += [src, positions, orientation, measures]
+            geo = dict(plane_positions=positions, plane_orientation=orientation, pixel_measures=measures)
+            expect = {'SpacingBetweenSlices': [step]}
+            if target == 'seg_geom':
+                arr = owned(np.array([rng.randint(0, 1) for _ in range(n * rows * cols)], np.uint8).reshape(n, rows, cols))
+                arr[:, 0, 0] = 1
+
+                def make():
+                    return hd.seg.Segmentation(src, arr, 'BINARY', [synth.seg_description(1)], hd.UID(), 1, hd.UID(), 1,
+                                               'm', 'mm', '1', 'sn', **geo)
+            else:
+                arr = owned(np.array([rng.random() for _ in range(n * rows * cols)], np.float32).reshape(n, rows, cols))
+                mp = hd.pm.RealWorldValueMapping('l', 'e', codes.UCUM.NoUnits, (-x, y), slope=x, intercept=-y)
+                expect = {'WindowCenter': [x], 'WindowWidth': [y]}
+
+                def make():
+                    return hd.pm.ParametricMap(src, arr, hd.UID(), 1, hd.UID(), 1, 'm', 'mm', '1', 'sn',
+                                               contains_recognizable_visual_features=False,
+                                               real_world_value_mappings=[mp], window_center=x, window_width=y, **geo)
+        elif target == 'seg_volume':
+            # the pixel array is an hd.Volume whose affine has an awkward spacing / a rotated direction
+            n, rows, cols = rng.randint(2, 3), 3, 4
+            src = synth.ct_series(n, rows, cols)
+            ang = rng.choice([0.3, 1 / 3])
+            d = np.array([[0.0, -math.sin(ang), math.cos(ang)], [0.0, math.cos(ang), math.sin(ang)], [-1.0, 0.0, 0.0]])
+            sp = [v if 1e-3 < v < 1e3 else 1 / 3 for v in (x, y, z)]
+            data = np.zeros((n, rows, cols), np.uint8)
+            data[:, 1, 1] = 1
+            vol = owned(hd.Volume.from_components(data, spacing=sp, coordinate_system='PATIENT', position=[x % 50, -y % 50, 1 / 3],
+                                                  direction=d, frame_of_reference_uid=src[0].FrameOfReferenceUID))
+            args.append(src)
+            expect = {'SpacingBetweenSlices': [sp[0]], 'PixelSpacing': [sp[1], sp[2]]}
+
+            def make():
+                return hd.seg.Segmentation(src, vol, 'BINARY', [synth.seg_description(1)], hd.UID(), 1, hd.UID(), 1,
+                                           'm', 'mm', '1', 'sn')
+        elif target == 'volume_groups':
+            # the functional-group sequences a Volume / VolumeGeometry hands out for its geometry
+            ang = rng.choice([0.3, 1 / 3, 0.0])
+            d = np.array([[math.cos(ang), -math.sin(ang), 0.0], [math.sin(ang), math.cos(ang), 0.0], [0.0, 0.0, 1.0]])
+            sp = [v if 1e-4 < v < 1e5 else 2 / 7 for v in (x, y, z)]
+            geom = owned(hd.VolumeGeometry.from_components((2, 3, 4), spacing=sp, coordinate_system='PATIENT',
+                                                           position=[-x % 97, y % 89, 1 / 3], direction=d))
+            expect = {'SpacingBetweenSlices': [sp[0]], 'PixelSpacing': [sp[1], sp[2]]}
+
+            def make():
+                return geom.get_plane_positions() + [geom.get_plane_orientation(), geom.get_pixel_measures()]
+        elif target == 'pr_window':
+            cts = synth.ct_series(2, 4, 4)
+            voi = [hd.pr.SoftcopyVOILUTTransformation(window_center=_num_scalar(x, form), window_width=_num_scalar(y, form))]
+            args += [cts, voi]
+            expect = {'WindowCenter': [fx(x)], 'WindowWidth': [fx(y)]}
+
+            def make():
+                return hd.pr.GrayscaleSoftcopyPresentationState(
+                    referenced_images=cts, series_instance_uid=hd.UID(), series_number=1, sop_instance_uid=hd.UID(),
+                    instance_number=1, manufacturer='m', manufacturer_model_name='mm', software_versions='1',
+                    device_serial_number='sn', content_label='LABEL', voi_lut_transformations=voi)
+        else:
+            raise ValueError(target)
+
+        def post(obj, back):
+            objs, backs = (obj, back) if isinstance(obj, list) else ([obj], [back])
+            seen = {}
+            for b in backs:
+                _ds_values(b, seen)
+            for kwd, want in expect.items():
+                got = seen.get(kwd)
+                if got is None:
+                    return f'{kwd} is not in what was read back'
+                if len(got) < len(want):
+                    return f'{kwd} holds {len(got)} values, {len(want)} were passed'
+                d = _num_close(got[:len(want)], want, kwd)
+                if d:
+                    return d
+            return None
+        return args, make, post
+    return build
+
+
+NUM_CONSTRUCTORS = {'num_' + t: _b_num(t) for t in (
+    'sc', 'measures', 'plane_position', 'plane_orientation', 'voi', 'modality', 'num_item', 'seg_geom', 'pm_geom',
+    'seg_volume', 'volume_groups', 'pr_window')}
+
+
 CONSTRUCTORS = {
     'tracking_identifiers': _b_generated_ids('tracking_identifiers'),
     'dimension_indexes': _b_generated_ids('dimension_indexes'),
@@ -1429,14 +1738,72 @@ HD_ROOT = '1.2.826.0.1.3680043.10.511.3.'
 
 
 STRING_VRS = ('AE', 'CS', 'SH', 'LO', 'ST', 'LT', 'UI', 'UR')
+# numbers that are written as text: decimal string (16 characters), integer string (12 characters)
+NUMBER_STRING_VRS = {'DS': (16, re.compile(r' *[+-]?([0-9]+(\.[0-9]*)?|\.[0-9]+)([eE][+-]?[0-9]+)? *\Z')),
+                     'IS': (12, re.compile(r' *[+-]?[0-9]+ *\Z'))}
+
+
+def _written_number(v):
+    """The characters pydicom's writer (filewriter.write_number_string) puts into the file for one value
+    of a DS / IS element: the original string if the value carries one, else str() - for a plain float /
+    a DSfloat made from a float that is repr(), however long."""
+    s = getattr(v, 'original_string', None)
+    return s if isinstance(s, str) else str(v)
+
+
+def _number_string_problem(vr, v):
+    """None, or why the text written for the value v of a DS / IS element violates the value representation
+    (pydicom 3 does NOT check float-valued DS when writing, not even with writing_validation_mode = RAISE)."""
+    lim, rx = NUMBER_STRING_VRS[vr]
+    s = _written_number(v)
+    if len(s) > lim:
+        return (f'{s!r} is written with {len(s)} characters, a value of VR {vr} has {lim} at most: a reader '
+                f'with value validation set to raise refuses the file')
+    if not rx.match(s):
+        return f'{s!r} is not a {"decimal" if vr == "DS" else "integer"} string'
+    return None
+
+
+def _touch(ds):
+    """Access (= convert and validate) every element of a dataset that was read from a file."""
+    for e in ds:
+        if e.VR == 'SQ':
+            for it in e.value:
+                _touch(it)
+        else:
+            e.value
+
+
+def _strict_read(data, **kw):
+    """dcmread + access to every element with reading_validation_mode = RAISE."""
+    import pydicom
+    from pydicom import config
+    old = config.settings.reading_validation_mode
+    config.settings.reading_validation_mode = config.RAISE
+    try:
+        back = pydicom.dcmread(io.BytesIO(data), **kw)
+        _touch(back)
+        if getattr(back, 'file_meta', None) is not None:
+            _touch(back.file_meta)
+        return back
+    finally:
+        config.settings.reading_validation_mode = old
 
 
 def _validate_all(ds, path='ds'):
     """Independent of WHEN pydicom validates: every string value held by the
-    object must pass pydicom's validator for its VR."""
+    object must pass pydicom's validator for its VR, and every number that is
+    written as text (DS, IS) must fit its value representation."""
     from pydicom import config
+    from pydicom.multival import MultiValue
     from pydicom.valuerep import validate_value
     for e in ds:
+        if e.VR in NUMBER_STRING_VRS and e.value not in (None, ''):
+            for v in (list(e.value) if isinstance(e.value, (MultiValue, list, tuple)) else [e.value]):
+                d = None if v in (None, '') else _number_string_problem(e.VR, v)
+                if d:
+                    return f'{path}.{e.keyword} ({e.VR}): {d}'
+            continue
         if e.VR == 'SQ':
             for i, it in enumerate(e.value):
                 d = _validate_all(it, f'{path}.{e.keyword}[{i}]')
@@ -1486,7 +1853,11 @@ def _check_object(target, obj, out):
                 return f"{target}: strict write failed: {type(ex).__name__}: {ex}"[:400], None
         finally:
             config.settings.writing_validation_mode = old
-        back = pydicom.dcmread(io.BytesIO(b.getvalue()), force=True)
+        try:
+            back = _strict_read(b.getvalue(), force=True)
+        except Exception as ex:
+            return (f"{target}: what was written cannot be read back with value validation set to raise: "
+                    f"{type(ex).__name__}: {ex}")[:400], None
         d = _cmp_ds(wrap, back)
         return (f"{target}: read-back differs: {d}" if d else None), back
     # identifiers in the file meta of the object as built (pydicom's writer would repair them)
@@ -1506,7 +1877,11 @@ def _check_object(target, obj, out):
             return f"{target}: strict write failed: {type(ex).__name__}: {ex}"[:400], None
     finally:
         config.settings.writing_validation_mode = old
-    back = pydicom.dcmread(io.BytesIO(b.getvalue()))
+    try:
+        back = _strict_read(b.getvalue())
+    except Exception as ex:
+        return (f"{target}: the file that was written cannot be read back with value validation set to raise: "
+                f"{type(ex).__name__}: {ex}")[:400], None
     d = _cmp_ds(obj, back)
     if d:
         return f"{target}: read-back differs: {d}", back
@@ -1541,10 +1916,13 @@ def run_constructor(c):
     from pydicom import config
     warnings.simplefilter('ignore')
     target = c['target']
-    build = CONSTRUCTORS[target]
+    build = CONSTRUCTORS.get(target) or NUM_CONSTRUCTORS[target]
     strict = c.get('strict', 'write')      # RAISE from construction on | only when writing
     opt = c.get('opt') or {}
     exotic = any(w in str(opt.get('layout', '')) for w in ('swapped', 'readonly'))
+    # a number that is not a Python float (numpy float32 scalar, int, array where a scalar is documented) or that
+    # no decimal string of 16 characters can hold may be refused - as long as the arguments are left alone
+    exotic = exotic or opt.get('numform') in ('np32', 'int', 'array') or opt.get('num') in ('exp100', 'subnormal')
     old = config.settings.writing_validation_mode
     out = {'ran': True, 'strict': strict}
     label = target + (f' {opt}' if opt else '')
@@ -2475,6 +2853,443 @@ def run_seg_plane(c):
     return [bool(changed), [int(v) for v in np.asarray(out).reshape(-1)]]
 
 
+# ---- geometry: Volume / VolumeGeometry / affine helpers / coordinate transformers (kinds geom, geom_form) ----
+# The arguments are small matrices and vectors; what varies is the FORM the caller holds them in: nested /
+# flat lists and tuples, float64 arrays (C, Fortran, a view into a larger array, a transposed view, a flat
+# (9,) array, a strided flat view, write-protected), arrays of another dtype (float32, int64, longdouble,
+# non-native byte order).  A library can skip a defensive copy exactly for float64 arrays.
+MATRIX_FORMS = ['list', 'tuple', 'flat', 'flat_tuple', 'f8', 'f8_F', 'f8_view', 'f8_T', 'f8_flat', 'f8_flat_view',
+                'f8_readonly', 'f8_flat_readonly', 'f4', 'i8', 'g', 'f8_swapped']
+VECTOR_FORMS = ['list', 'tuple', 'f8', 'f8_view', 'f8_readonly', 'f4', 'i8']
+FLAT_FORMS = ('flat', 'flat_tuple', 'f8_flat', 'f8_flat_view', 'f8_flat_readonly')
+GEOM_COMPONENT_ENTRIES = ['affine', 'geometry', 'volume']
+GEOM_FORM_ENTRIES = ['geometry_affine', 'volume_affine', 'affine_attrs', 'geometry_attrs', 'volume_attrs', 'rotation',
+                     'pix2ref', 'ref2pix', 'img2ref', 'ref2img', 'pix2pix', 'img2img', 'volume_ops']
+ORIENT_LETTERS = 'LRPAHF'
+
+
+def _as_form(a, form):
+    """The float64 value `a` (vector or matrix) in one of the forms a caller can hold it in."""
+    import numpy as np
+    a = np.array(a, dtype=np.float64)
+    integral = bool(np.all(a == np.round(a)))
+    if form == 'list':
+        return a.tolist()
+    if form == 'tuple':
+        return tuple(tuple(r) for r in a.tolist()) if a.ndim == 2 else tuple(a.tolist())
+    if form == 'flat':
+        return a.reshape(-1).tolist()
+    if form == 'flat_tuple':
+        return tuple(a.reshape(-1).tolist())
+    if form == 'f8':
+        return a.copy()
+    if form == 'f8_F':
+        return np.asfortranarray(a)
+    if form == 'f8_view':
+        if a.ndim == 2:
+            big = np.full((a.shape[0] + 2, a.shape[1] + 2), 7.0)
+            big[1:-1, 1:-1] = a
+            return big[1:-1, 1:-1]
+        big = np.full(2 * a.size + 3, 7.0)
+        big[1:1 + 2 * a.size:2] = a
+        return big[1:1 + 2 * a.size:2]
+    if form == 'f8_T':
+        return np.array(a.T, dtype=np.float64).T if a.ndim == 2 else a.copy()
+    if form == 'f8_flat':
+        return a.reshape(-1).copy()
+    if form == 'f8_flat_view':
+        big = np.full(2 * a.size + 1, 7.0)
+        big[::2][:a.size] = a.reshape(-1)
+        return big[::2][:a.size]
+    if form in ('f8_readonly', 'f8_flat_readonly'):
+        r = a.reshape(-1).copy() if form == 'f8_flat_readonly' else a.copy()
+        r.flags.writeable = False
+        return r
+    if form == 'f4':            # (only values a float32 holds exactly: the VALUE of the argument must not change)
+        return a.astype(np.float32) if _exact_in_f4(a) else a.copy()
+    if form == 'i8':
+        return a.astype(np.int64) if integral else a.copy()
+    if form == 'g':
+        return a.astype(np.longdouble)
+    if form == 'f8_swapped':
+        return a.astype(a.dtype.newbyteorder('S'))
+    raise ValueError(form)
+
+
+def _form_class(x):
+    """0 a list / tuple, 1 a float64 numpy array in native byte order, 2 another array."""
+    import numpy as np
+    if not isinstance(x, np.ndarray):
+        return 0
+    return 1 if x.dtype == np.dtype('float64') and x.dtype.isnative else 2
+
+
+def _exact_in_f4(a):
+    import numpy as np
+    a = np.asarray(a, dtype=np.float64)
+    return bool(np.all(a.astype(np.float32).astype(np.float64) == a))
+
+
+def _geom_components(c):
+    """Arguments of the from_components family as the caller holds them: (kwargs, owned, reference affine or
+    None when the arguments are not acceptable)."""
+    import math
+    import numpy as np
+    owned = {}
+    kw = {}
+    sdiv = c.get('sdiv', 4)
+    sp = [q / sdiv for q in c['spacing']]
+    if c.get('scalar'):
+        kw['spacing'] = float(sp[0]) if c.get('sform') != 'i8' or sp[0] != int(sp[0]) else int(sp[0])
+    else:
+        kw['spacing'] = owned['spacing'] = _as_form(sp, c.get('sform', 'list'))
+    if c.get('dir') is not None:
+        d = np.array(c['dir'], dtype=np.float64)
+        form = c.get('dform', 'list')
+        if c.get('badshape'):             # (2, 2), (8,), (3, 4), (1, 9): no direction matrix
+            d = d.reshape(c['badshape'])
+        else:
+            d = d.reshape(3, 3)
+            if c.get('rot'):            # an inexact direction: the exact one turned about two axes
+                a, b = c['rot']
+                rz = np.array([[math.cos(a), -math.sin(a), 0.0], [math.sin(a), math.cos(a), 0.0], [0.0, 0.0, 1.0]])
+                rx = np.array([[1.0, 0.0, 0.0], [0.0, math.cos(b), -math.sin(b)], [0.0, math.sin(b), math.cos(b)]])
+                d = rz @ rx @ d
+        kw['direction'] = owned['direction'] = _as_form(d, form)
+    if c.get('orient') is not None:
+        letters = [ORIENT_LETTERS[k] if 0 <= k < 6 else 'X' for k in c['orient']]
+        kw['patient_orientation'] = ''.join(letters) if c.get('oform', 'str') == 'str' else list(letters)
+    for name in ('pos', 'center'):
+        if c.get(name) is not None:
+            key = {'pos': 'position', 'center': 'center_position'}[name]
+            kw[key] = owned[key] = _as_form([q / 4 for q in c[name]], c.get('pform', 'list'))
+    return kw, owned
+
+
+def _geom_reference(c):
+    """numpy reference for the affine of the from_components family (None: arguments that must be refused)."""
+    import math
+    import numpy as np
+    if (c.get('dir') is None) == (c.get('orient') is None) or (c.get('pos') is None) == (c.get('center') is None):
+        return None
+    sp = np.array([q / c.get('sdiv', 4) for q in c['spacing']])
+    if len(sp) != 3 or sp.min() <= 0:
+        return None
+    if c.get('dir') is not None:
+        if c.get('badshape') or len(c['dir']) != 9:
+            return None
+        d = np.array(c['dir'], dtype=np.float64).reshape(3, 3)
+        if not np.array_equal(d.T @ d, np.eye(3)):
+            return None
+        if c.get('rot'):
+            a, b = c['rot']
+            rz = np.array([[math.cos(a), -math.sin(a), 0.0], [math.sin(a), math.cos(a), 0.0], [0.0, 0.0, 1.0]])
+            rx = np.array([[1.0, 0.0, 0.0], [0.0, math.cos(b), -math.sin(b)], [0.0, math.sin(b), math.cos(b)]])
+            d = rz @ rx @ d
+    else:
+        o = c['orient']
+        if len(o) != 3 or any(not 0 <= k < 6 for k in o) or sorted(k // 2 for k in o) != [0, 1, 2]:
+            return None
+        d = np.zeros((3, 3))
+        for j, k in enumerate(o):
+            d[k // 2, j] = 1.0 if k % 2 == 0 else -1.0
+    ref = np.eye(4)
+    ref[:3, :3] = d * sp[None, :]
+    if c.get('pos') is not None:
+        if len(c['pos']) != 3:
+            return None
+        ref[:3, 3] = np.array(c['pos']) / 4
+    else:
+        n = c.get('shape')
+        if n is None or len(n) != 3 or len(c['center']) != 3:
+            return None
+        ref[:3, 3] = np.array(c['center']) / 4 - ref[:3, :3] @ ((np.array(n) - 1) / 2)
+    return ref
+
+
+_GEOM_DETAIL = {}
+
+
+def run_geom(c):
+    """The from_components family: create_affine_matrix_from_components, VolumeGeometry.from_components,
+    Volume.from_components.  Output [was an argument of the caller changed, affine in eighths]; the details of
+    a change are kept for the oracle's message."""
+    import numpy as np
+    import highdicom as hd
+    from highdicom.spatial import create_affine_matrix_from_components
+    entry = c['entry']
+    kw, owned = _geom_components(c)
+    what = (f"{ {'affine': 'create_affine_matrix_from_components', 'geometry': 'VolumeGeometry.from_components', 'volume': 'Volume.from_components'}[entry]}"
+            f"(direction as {c.get('dform') if c.get('dir') is not None else None}"
+            f", spacing {[q / c.get('sdiv', 4) for q in c['spacing']]}"
+            f"{' (scalar)' if c.get('scalar') else ''} as {c.get('sform', 'list')}, "
+            f"{'position' if c.get('pos') is not None else 'center_position'} as {c.get('pform', 'list')})")
+    shape = c.get('shape')
+    array = None
+    if entry == 'volume':
+        array = np.arange(int(np.prod(shape)), dtype=np.uint16).reshape(shape)
+        owned['array'] = array
+
+    def call():
+        if entry == 'affine':
+            return create_affine_matrix_from_components(spatial_shape=shape, **kw)
+        if entry == 'geometry':
+            return hd.VolumeGeometry.from_components(shape, coordinate_system='PATIENT', **kw).affine
+        return hd.Volume.from_components(array, coordinate_system='PATIENT', **kw).affine
+    names = sorted(owned)
+    before = [_snap(owned[k]) for k in names]
+    values = {k: np.array(owned[k], dtype=np.float64).copy() for k in names if k != 'array'}
+    _GEOM_DETAIL.pop('msg', None)
+
+    def changed():
+        for k, x in zip(names, before):
+            d = _first_diff(x, _snap(owned[k]), f"argument '{k}'")
+            if d:
+                now = np.array(owned[k], dtype=np.float64).reshape(-1).tolist() if k != 'array' else '...'
+                was = values[k].reshape(-1).tolist() if k != 'array' else '...'
+                _GEOM_DETAIL['msg'] = f'{what} modified its input: {d}; it held {was} and now holds {now}'
+                return True
+        return False
+    try:
+        aff = call()
+    except REJECTIONS as ex:
+        if _call_mistake(ex):
+            raise
+        if 'read-only' in str(ex):
+            return _viol(f'{what} writes to an array passed to it (write-protected input): {type(ex).__name__}: {ex}')
+        if changed():
+            return _viol(_GEOM_DETAIL['msg'] + f' (and raised {type(ex).__name__})')
+        return Err(type(ex).__name__)
+    ch = changed()
+    ref = _geom_reference(c)
+    if ref is None:
+        return _viol(f'{what}: arguments that must be refused were accepted')
+    if not np.allclose(aff, ref, rtol=1e-9, atol=1e-9):
+        return _viol(f'{what}: affine {np.round(aff, 6).tolist()} instead of {np.round(ref, 6).tolist()}')
+    if not ch:
+        # the very same argument objects used for a second construction
+        try:
+            aff2 = call()
+        except Exception as ex:
+            return _viol(f'{what}: a second construction from the same argument objects raises '
+                         f'{type(ex).__name__}: {ex}')
+        if not np.array_equal(aff, aff2):
+            return _viol(f'{what}: constructing twice from the same arguments gives two different geometries')
+        ch = changed()
+    e8 = np.asarray(aff, dtype=np.float64) * 8
+    if c.get('rot') or c.get('sdiv', 4) != 4 or not np.array_equal(e8, np.round(e8)):
+        return [bool(ch), None]
+    return [bool(ch), [int(v) for v in e8.reshape(-1)]]
+
+
+def _geom_attr_reference(pos, ori, ps, sbs):
+    """Affine of a volume over (slice, row, column) indices from image attributes (right-handed)."""
+    import numpy as np
+    row, col = np.array(ori[:3]), np.array(ori[3:])
+    ref = np.eye(4)
+    ref[:3, 0] = np.cross(col, row) * sbs        # right-handed: axis 0 = axis 1 x axis 2
+    ref[:3, 1] = col * ps[0]
+    ref[:3, 2] = row * ps[1]
+    ref[:3, 3] = pos
+    return ref
+
+
+def run_geom_form(c):
+    """The other geometry entry points x the form of every array argument: an affine passed directly,
+    from_attributes, the rotation / affine helpers, the six coordinate transformers (constructor, for_image(s)
+    and the call on a coordinate array), conversions of a Volume built on the caller's array.  Output
+    'ok' / refusal; every violation is found here (snapshots, numpy reference, result independent of the form)."""
+    import math
+    import random
+    import numpy as np
+    import highdicom as hd
+    from highdicom import spatial as S
+    rng = random.Random(c['seed'])
+    entry, mform, vform = c['entry'], c['mform'], c['vform']
+    what = f'{entry} (matrix arguments as {mform}, vector arguments as {vform})'
+    ang = c.get('angle', 0.0)
+    ori = [math.cos(ang), math.sin(ang), 0.0, -math.sin(ang), math.cos(ang), 0.0]
+    if ang == 0.0:
+        ori = rng.choice([[1.0, 0.0, 0.0, 0.0, 1.0, 0.0], [0.0, 1.0, 0.0, 0.0, 0.0, -1.0], [0.0, 0.0, -1.0, 1.0, 0.0, 0.0]])
+    pos = [rng.choice([0.0, 10.5, -20.25, 1 / 3]) for _ in range(3)]
+    ps = [rng.choice([0.5, 0.75, 2.5, 1.0, 1 / 3]) for _ in range(2)]
+    sbs = rng.choice([1.25, 2.0, 0.7])
+    if vform == 'i8':
+        pos, ps, sbs = [float(round(v)) for v in pos], [float(max(1, round(v))) for v in ps], 2.0
+    if vform == 'f4' and not (_exact_in_f4(pos) and _exact_in_f4(ps)):
+        pos, ps = [10.5, -20.25, 3.0], [0.5, 0.75]
+    if (vform == 'f4' or mform == 'f4') and not _exact_in_f4(ori):
+        ori = [0.0, 1.0, 0.0, 0.0, 0.0, -1.0]
+    owned = {}
+
+    def arg(name, value, form):
+        owned[name] = _as_form(value, form)
+        return owned[name]
+    shape = (2, 3, 4)
+    result = {}
+    plain = {}
+
+    def prepare(forms):
+        """(callable, reference or None) with the arguments in the given forms."""
+        mf, vf = forms
+        if entry in ('geometry_affine', 'volume_affine', 'volume_ops'):
+            ref = _geom_attr_reference(pos, ori, ps, sbs)
+            aform = mf if mf not in ('list', 'tuple', 'flat', 'flat_tuple', 'f8_flat', 'f8_flat_view', 'f8_flat_readonly') \
+                else 'f8'              # the affine is documented as an array
+            if aform in ('i8', 'f4') and not (np.all(ref == np.round(ref)) if aform == 'i8' else _exact_in_f4(ref)):
+                aform = 'f8_view'
+            aff = arg('affine', ref, aform)
+            if entry == 'geometry_affine':
+                return (lambda: hd.VolumeGeometry(aff, shape, 'PATIENT').affine), ref
+            dt = c.get('dtype', 'uint8')
+            data = _relayout((np.arange(24) % 7).astype(dt).reshape(shape), c.get('layout', 'C'))
+            owned['array'] = data
+            if entry == 'volume_affine':
+                return (lambda: hd.Volume(data, aff, 'PATIENT').affine), ref
+
+            def ops():
+                vol = hd.Volume(data, aff, 'PATIENT')
+                vsnap = (_snap(vol.array), _snap(vol.affine))
+                made = {
+                    'flip': lambda: vol.flip_spatial([0, 2]), 'permute': lambda: vol.permute_spatial_axes([2, 0, 1]),
+                    'swap': lambda: vol.swap_spatial_axes(0, 1), 'pad': lambda: vol.pad([[1, 0], [0, 2], [1, 1]]),
+                    'pad_shape': lambda: vol.pad_to_spatial_shape((4, 5, 6)), 'crop_shape': lambda: vol.crop_to_spatial_shape((1, 2, 3)),
+                    'index': lambda: vol[1:, ::-1, 1:3], 'astype': lambda: vol.astype(np.float32),
+                    'same_type': lambda: vol.astype(data.dtype.type), 'copy': lambda: vol.copy(),
+                    'with_array': lambda: vol.with_array(np.zeros(shape, np.int16)),
+                    'orient': lambda: vol.to_patient_orientation('FPL'), 'handed': lambda: vol.ensure_handedness('LEFT_HANDED', flip_axis=0),
+                    'mean_std': lambda: vol.normalize_mean_std(), 'min_max': lambda: vol.normalize_min_max(),
+                    'clip': lambda: vol.clip(1, 4), 'geometry': lambda: vol.get_geometry(),
+                    'match': lambda: vol.match_geometry(vol.get_geometry().pad(1)),
+                }
+                out = []
+                for name in sorted(made):
+                    try:
+                        r = made[name]()
+                    except REJECTIONS as ex:
+                        if 'read-only' in str(ex):
+                            raise
+                        r = None
+                    if (_snap(vol.array), _snap(vol.affine)) != vsnap:
+                        raise AssertionError(f'Volume.{name} changed the volume it was applied to')
+                    out.append(None if r is None else np.asarray(r.affine))
+                return np.concatenate([np.zeros((4, 4)) if r is None else r for r in out])
+            return ops, None
+        ip = arg('image_position', pos, vf)
+        io = arg('image_orientation', ori, vf)
+        px = arg('pixel_spacing', ps, vf)
+        if entry == 'affine_attrs':
+            return (lambda: S.create_affine_matrix_from_attributes(ip, io, px, sbs, index_convention=('D', 'R'),
+                                                                   slices_first=True)), \
+                _geom_attr_reference(pos, ori, ps, sbs)
+        if entry == 'geometry_attrs':
+            return (lambda: hd.VolumeGeometry.from_attributes(
+                image_position=ip, image_orientation=io, pixel_spacing=px, spacing_between_slices=sbs,
+                number_of_frames=2, rows=3, columns=4, coordinate_system='PATIENT').affine), \
+                _geom_attr_reference(pos, ori, ps, sbs)
+        if entry == 'volume_attrs':
+            data = np.zeros(shape, np.uint8)
+            owned['array'] = data
+            return (lambda: hd.Volume.from_attributes(
+                array=data, image_position=ip, image_orientation=io, pixel_spacing=px, spacing_between_slices=sbs,
+                coordinate_system='PATIENT').affine), _geom_attr_reference(pos, ori, ps, sbs)
+        if entry == 'rotation':
+            return (lambda: np.concatenate([S.create_rotation_matrix(io, pixel_spacing=px, spacing_between_slices=sbs),
+                                            S.get_normal_vector(io).reshape(1, 3)])), None
+        # coordinate transformers: the constructor AND the call on an array of coordinates
+        pos2 = [pos[k] + 3.0 * ori[k] - 1.5 * ori[3 + k] for k in range(3)]       # in the plane of the first image
+        ip2 = arg('image_position_to', pos2, vf)
+        io2 = arg('image_orientation_to', ori, vf)
+        px2 = arg('pixel_spacing_to', [2 * ps[0], 2 * ps[1]], vf)
+        pix = np.array([[0, 0], [1, 2], [3, 1]])
+        img = np.array([[0.5, 0.5], [1.25, 2.0], [3.0, 1.5]])
+        ref3 = np.array([pos, pos2, [pos[0] + 1.0, pos[1], pos[2]]])
+        cform = mf if mf in ('f8', 'f8_F', 'f8_view', 'f8_T', 'f8_readonly') else 'f8'
+        def int_coordinates():
+            if cform == 'f8_view':
+                big = np.full((5, 4), 7, dtype=np.int64)
+                big[1:4, 1:3] = pix
+                owned['coordinates'] = big[1:4, 1:3]
+            elif cform == 'f8_T':
+                owned['coordinates'] = np.array(pix.T, dtype=np.int64).T
+            else:
+                owned['coordinates'] = np.asfortranarray(pix) if cform == 'f8_F' else pix.copy()
+                if cform == 'f8_readonly':
+                    owned['coordinates'].flags.writeable = False
+            return owned['coordinates']
+        if entry == 'pix2ref':
+            co = int_coordinates()
+            return (lambda: S.PixelToReferenceTransformer(ip, io, px)(co)), None
+        if entry == 'ref2pix':
+            co = arg('coordinates', ref3, cform)
+            return (lambda: S.ReferenceToPixelTransformer(ip, io, px, sbs)(co)), None
+        if entry == 'img2ref':
+            co = arg('coordinates', img, cform)
+            return (lambda: S.ImageToReferenceTransformer(ip, io, px)(co)), None
+        if entry == 'ref2img':
+            co = arg('coordinates', ref3, cform)
+            return (lambda: S.ReferenceToImageTransformer(ip, io, px, sbs)(co)), None
+        if entry == 'pix2pix':
+            co = int_coordinates()
+            return (lambda: S.PixelToPixelTransformer(ip, io, px, ip2, io2, px2)(co)), None
+        if entry == 'img2img':
+            co = arg('coordinates', img, cform)
+            return (lambda: S.ImageToImageTransformer(ip, io, px, ip2, io2, px2)(co)), None
+        raise ValueError(entry)
+
+    # the result with every argument as a plain list / C-contiguous float64 array: what every form must give
+    base_call, ref = prepare(('f8' if entry in ('geometry_affine', 'volume_affine', 'volume_ops') else 'list', 'list'))
+    saved_layout = c.get('layout')
+    try:
+        base = np.asarray(base_call(), dtype=np.float64)
+    except REJECTIONS as ex:
+        if _call_mistake(ex):
+            raise
+        return Err('baseline ' + type(ex).__name__)
+    owned.clear()
+    call, ref = prepare((mform, vform))
+    names = sorted(owned)
+    before = [_snap(owned[k]) for k in names]
+
+    def changed():
+        for k, x in zip(names, before):
+            d = _first_diff(x, _snap(owned[k]), f"argument '{k}'")
+            if d:
+                return f'{what} modified its input: {d}'
+        return None
+    try:
+        got = np.asarray(call(), dtype=np.float64)
+    except AssertionError as ex:
+        return _viol(f'{what}: {ex}')
+    except REJECTIONS as ex:
+        if _call_mistake(ex):
+            raise
+        if 'read-only' in str(ex):
+            return _viol(f'{what} writes to an array passed to it (write-protected input): {type(ex).__name__}: {ex}')
+        d = changed()
+        if d:
+            return _viol(d + f' (and raised {type(ex).__name__})')
+        return Err(type(ex).__name__)
+    d = changed()
+    if d:
+        return _viol(d)
+    if ref is not None and not np.allclose(got, ref, rtol=1e-9, atol=1e-9):
+        return _viol(f'{what}: affine {np.round(got, 6).tolist()} instead of {np.round(ref, 6).tolist()}')
+    if got.shape != base.shape or not np.allclose(got, base, rtol=1e-6, atol=1e-6, equal_nan=True):
+        return _viol(f'{what}: the result depends on the form of the arguments: {np.round(got, 5).tolist()[:4]} '
+                     f'instead of {np.round(base, 5).tolist()[:4]} with plain lists')
+    try:
+        again = np.asarray(call(), dtype=np.float64)
+    except Exception as ex:
+        return _viol(f'{what}: a second call with the same argument objects raises {type(ex).__name__}: {ex}')
+    if not np.array_equal(again, got, equal_nan=True):
+        return _viol(f'{what}: two calls with the same argument objects give different results')
+    d = changed()
+    if d:
+        return _viol(d)
+    return 'ok'
+
+
 # --------------------------------------------------------------------------
 # generators
 # --------------------------------------------------------------------------
@@ -2508,6 +3323,34 @@ def _rstr(rng, vr):
     return s
 
 
+def _rnum(rng, vr):
+    """A string around the grammar and the length limit of a decimal / integer string."""
+    digits = lambda k: ''.join(rng.choice('0123456789') for _ in range(k))
+    lim = NUMBER_STRING_VRS[vr][0]
+    sign = rng.choice(['', '', '-', '+'])
+    if vr == 'IS':
+        t = sign + digits(rng.choice([1, 2, 9, lim - 2, lim - 1, lim, lim + 1]))
+    else:
+        form = rng.random()
+        a, b = rng.choice([0, 1, 1, 2, 6]), rng.choice([0, 1, 3, 10, 13, 14, 15, 16])
+        if form < 0.5:
+            t = sign + digits(a) + '.' + digits(b)
+        elif form < 0.8:
+            t = sign + digits(max(a, 1)) + rng.choice(['.', '']) + digits(rng.choice([0, 5, 9, 10])) + \
+                rng.choice('eE') + rng.choice(['', '+', '-']) + digits(rng.choice([0, 1, 2, 2, 3]))
+        else:
+            t = sign + digits(rng.choice([1, 5, 15, 16, 17]))
+    r = rng.random()
+    if r < 0.15:
+        t = ' ' * rng.randint(1, 2) + t
+    elif r < 0.3:
+        t = t + ' ' * rng.randint(1, 2)
+    elif r < 0.4 and t:
+        i = rng.randrange(len(t) + 1)
+        t = t[:i] + rng.choice(['a', '\n', ',', ' ', '-', '.', 'e']) + t[i:]
+    return [ord(ch) for ch in t]
+
+
 def gen_cases(rng, tier):
     n = {'quick': 1, 'thorough': 8, 'search': 4}[tier]
     cases = []
@@ -2524,6 +3367,15 @@ def gen_cases(rng, tier):
             cases.append({'kind': 'guard', 'vr': vr, 's': [65] * (LIMIT[vr] + d)})
             if vr != 'LT' or d == 1:
                 cases.append({'kind': 'valid', 'vr': vr, 's': [65] * (LIMIT[vr] + d)})
+    for vr in NUMBER_STRING_VRS:
+        for _ in range(45 * n if vr == 'DS' else 20 * n):
+            cases.append({'kind': 'valid', 'vr': vr, 's': _rnum(rng, vr)})
+    for t in ('0.3333333333333333', '0.30000000000000004', '0.3333333333333', '1.2345678912e-05', '1.2345678912345678e-05',
+              '-1.23456789e+100', '333333333333333.3', '1234567890123456', '12345678901234567', '', ' ', '.', '.5', '5.',
+              '+.5e-3', '1e', '1e+', 'e5', '1.5\n', '1 ', ' 1', '1 2', '--1', '1.2.3', '1E5', '0x10', 'nan', 'inf', '1,5'):
+        cases.append({'kind': 'valid', 'vr': 'DS', 's': [ord(ch) for ch in t]})
+        if len(t) < 14:
+            cases.append({'kind': 'valid', 'vr': 'IS', 's': [ord(ch) for ch in t]})
     special = [0, 1, 9, 10, 11, 99, 100, 2 ** 64, 2 ** 127, 2 ** 128 - 1, 10 ** 38, 10 ** 38 - 1]
     for k in special + [rng.getrandbits(rng.choice([8, 32, 64, 100, 128])) for _ in range(25 * n)]:
         cases.append({'kind': 'uid_uuid', 'n': str(k)})
@@ -2566,6 +3418,9 @@ def gen_cases(rng, tier):
     cases += _gen_src_cases(rng, n)
     cases += _gen_voi_cases(rng, n)
     cases += _gen_obj_copy_cases(rng, n)
+    cases += _gen_num_cases(rng, n)
+    cases += _gen_geom_cases(rng, n)
+    cases += _gen_geom_form_cases(rng, n)
     return cases
 
 
@@ -2734,6 +3589,130 @@ def _gen_obj_copy_cases(rng, n):
             for op in ops:
                 cases.append({'kind': 'obj_copy', 'cls': cls, 'hist': hist, 'op': op, 'seed': rng.getrandbits(32),
                               'form': rng.choice(forms[cls]) if cls in forms else None})
+    return cases
+
+
+def _gen_num_cases(rng, n):
+    """Every entry point that stores a floating-point ARGUMENT as a decimal string x the number (short repr,
+    and the long reprs ordinary arithmetic produces: 17-22 characters, exponent notation, huge / tiny) x the
+    form the caller holds it in (float, numpy float64 / float32 scalar, array, list, tuple, int)
+    (kind ctor_num)."""
+    cases = []
+    i = 0
+    cheap = ('num_sc', 'num_measures', 'num_plane_position', 'num_plane_orientation', 'num_voi', 'num_modality',
+             'num_num_item')
+    forms = NUM_FORMS[:6]
+    for t in sorted(NUM_CONSTRUCTORS):
+        names = sorted(NUM_VALUES) if (t in cheap or n > 1) else ['half'] + rng.sample(NUM_LONG, 4)
+        for name in names:
+            i += 1
+            form = forms[i % len(forms)] if rng.random() < 0.8 else rng.choice(NUM_FORMS)
+            cases.append({'kind': 'ctor_num', 'target': t, 'seed': rng.getrandbits(32),
+                          'strict': 'construct' if i % 2 else 'write', 'opt': {'num': name, 'numform': form}})
+        for _ in range((3 if t in cheap else 1) * n):      # the plain float, whatever was drawn above
+            i += 1
+            cases.append({'kind': 'ctor_num', 'target': t, 'seed': rng.getrandbits(32),
+                          'strict': 'construct' if i % 2 else 'write',
+                          'opt': {'num': rng.choice(NUM_LONG), 'numform': 'float'}})
+    return cases
+
+
+def _signed_permutation(rng, identity=False):
+    """An exact direction matrix (row by row): the unit vectors in some order with some signs."""
+    perm = [0, 1, 2]
+    sg = [1, 1, 1]
+    if not identity:
+        rng.shuffle(perm)
+        sg = [rng.choice([1, -1]) for _ in range(3)]
+    m = [0] * 9
+    for j in range(3):
+        m[3 * perm[j] + j] = sg[j]
+    return m
+
+
+def _gen_geom_cases(rng, n):
+    """create_affine_matrix_from_components / VolumeGeometry.from_components / Volume.from_components x the FORM
+    of the direction matrix (16 forms) x spacing (unit, scalar, dyadic, 1/3) x its form x position or
+    center_position x their form x direction or patient_orientation + every guard violated (kind geom)."""
+    cases = []
+
+    def base(entry, **k):
+        c = {'kind': 'geom', 'entry': entry, 'dir': _signed_permutation(rng), 'dform': 'list', 'orient': None,
+             'spacing': [rng.choice([1, 2, 3, 5, 10, 6]) for _ in range(3)], 'sdiv': 4, 'scalar': False, 'sform': 'list',
+             'pos': [rng.randint(-200, 200) for _ in range(3)], 'center': None, 'pform': rng.choice(VECTOR_FORMS),
+             'shape': [rng.randint(1, 3), rng.randint(1, 4), rng.randint(1, 4)] if entry != 'affine' or rng.random() < 0.5
+             else None, 'rot': None}
+        c.update(k)
+        return c
+    for entry in GEOM_COMPONENT_ENTRIES:
+        for form in MATRIX_FORMS:
+            cases.append(base(entry, dform=form, sform=rng.choice(VECTOR_FORMS)))
+        for form in VECTOR_FORMS:       # the spacing / the position in every form, the direction as an array
+            cases.append(base(entry, sform=form, pform=form, dform=rng.choice(['f8', 'f8_F', 'list'])))
+    for _ in range(45 * n):
+        entry = rng.choice(GEOM_COMPONENT_ENTRIES)
+        c = base(entry, dform=rng.choice(MATRIX_FORMS), sform=rng.choice(VECTOR_FORMS))
+        r = rng.random()
+        if r < 0.25:
+            c['rot'] = [rng.choice([0.3, -0.7, 1 / 3, 2.0]), rng.choice([0.0, 0.25, -1.1])]
+        elif r < 0.4:
+            c['sdiv'] = rng.choice([3, 7])
+        elif r < 0.6:
+            c['dir'], c['orient'] = None, [2 * ax + rng.randint(0, 1) for ax in rng.sample([0, 1, 2], 3)]
+            c['oform'] = rng.choice(['str', 'list'])
+        if rng.random() < 0.1:
+            c['spacing'] = [4, 4, 4]
+        if rng.random() < 0.15:
+            c['scalar'], c['spacing'] = True, [c['spacing'][0]] * 3
+        if rng.random() < 0.4:
+            c['center'], c['pos'] = c['pos'], None
+            c['shape'] = c['shape'] or [2, 3, 4]
+        cases.append(c)
+    # every guard violated (alone, and two at a time to pin the order)
+    bad = [dict(orient=[0, 2, 4]), dict(dir=None), dict(center=[4, 8, 12], shape=[2, 2, 2]), dict(pos=None),
+           dict(spacing=[4, 4]), dict(spacing=[4, 4, 4, 4]), dict(spacing=[4, 0, 4]), dict(spacing=[4, -2, 4]),
+           dict(dir=[2, 0, 0, 0, 1, 0, 0, 0, 1]), dict(dir=[1, 0, 0, 1, 0, 0, 0, 0, 1]), dict(dir=[1, 1, 0, 0, 1, 0, 0, 0, 1]),
+           dict(dir=[0, 0, 0, 0, 1, 0, 0, 0, 1]), dict(dir=[1, 0, 0, 1], badshape=[2, 2]), dict(dir=[1, 0, 0, 0, 1, 0, 0, 0], badshape=[8]),
+           dict(dir=[1, 0, 0, 0, 0, 1, 0, 0, 0, 0, 1, 0], badshape=[3, 4]), dict(dir=[1, 0, 0, 0, 1, 0, 0, 0, 1], badshape=[1, 9]),
+           dict(dir=None, orient=[0, 2]), dict(dir=None, orient=[0, 1, 2]), dict(dir=None, orient=[0, 2, 6]),
+           dict(dir=None, orient=[0, 2, 4, 4]), dict(dir=None, orient=[4, 5, 0]), dict(pos=[4, 8]), dict(pos=[4, 8, 12, 16]),
+           dict(pos=None, center=[4, 8, 12], shape=None), dict(pos=None, center=[4, 8, 12], shape=[2, 2]),
+           dict(pos=None, center=[4, 8], shape=[2, 2, 2]), dict(spacing=[4, 4], dir=[2, 0, 0, 0, 1, 0, 0, 0, 1]),
+           dict(dir=None, spacing=[0, 4, 4]), dict(pos=None, spacing=[4, 4]), dict(pos=[4, 8], dir=[2, 0, 0, 0, 1, 0, 0, 0, 1])]
+    for k in bad:
+        entry = 'affine' if ('shape' in k and (k['shape'] is None or len(k['shape']) != 3)) else \
+            rng.choice(GEOM_COMPONENT_ENTRIES)
+        c = base(entry, dform=rng.choice(['list', 'f8']), pform='list', **k)
+        if entry != 'affine' and c['shape'] is None:
+            c['shape'] = [2, 2, 2]
+        cases.append(c)
+    return cases
+
+
+def _gen_geom_form_cases(rng, n):
+    """Volume / VolumeGeometry from an affine or from image attributes, the rotation / affine helpers, the six
+    coordinate transformers and conversions of a Volume x the form of every array argument (kind geom_form)."""
+    cases = []
+    aforms = ['f8', 'f8_F', 'f8_view', 'f8_T', 'f8_readonly', 'f4', 'i8', 'g', 'f8_swapped']
+    for entry in GEOM_FORM_ENTRIES:
+        if entry in ('geometry_affine', 'volume_affine', 'volume_ops'):
+            combos = [(m, 'list') for m in aforms]
+        elif entry in ('affine_attrs', 'geometry_attrs', 'volume_attrs', 'rotation'):
+            combos = [('f8', v) for v in VECTOR_FORMS]
+        elif entry in ('pix2ref', 'img2ref'):
+            combos = [(m, v) for m, v in zip(['f8', 'f8_F', 'f8_view', 'f8_T', 'f8_readonly', 'f8', 'f8_view'],
+                                             VECTOR_FORMS)]
+        else:       # (these four refuse numpy arrays as vector arguments: one such case each)
+            combos = [(m, v) for m, v in zip(['f8', 'f8_F', 'f8_view', 'f8_T', 'f8_readonly', 'f8'],
+                                             ['list', 'tuple', 'list', 'tuple', 'list', 'f8'])]
+        for _ in range(n):
+            for m, v in combos:
+                c = {'kind': 'geom_form', 'entry': entry, 'mform': m, 'vform': v, 'seed': rng.getrandbits(32),
+                     'angle': rng.choice([0.0, 0.0, 0.3, 1 / 3])}
+                if entry in ('volume_affine', 'volume_ops'):
+                    c['layout'] = rng.choice(['C', 'F', 'offset', 'readonly', 'reversed', 'strided'])
+                    c['dtype'] = rng.choice(['uint8', 'int16', 'float32', 'float64'])
+                cases.append(c)
     return cases
 
 
@@ -3173,6 +4152,10 @@ def run_impl(c):
         return run_sop_init(c)
     if k == 'seg_plane':
         return run_seg_plane(c)
+    if k == 'geom':
+        return run_geom(c)
+    if k == 'geom_form':
+        return run_geom_form(c)
     raise ValueError(k)
 
 
@@ -3181,7 +4164,19 @@ def coq_term(c):
     if k == 'guard':
         return f"(run_guard {c['vr']} {zl(c['s'])})"
     if k == 'valid':
+        if c['vr'] in NUMBER_STRING_VRS:
+            return f"(run_valid_num {c['vr']} {zl(c['s'])})"
         return f"(run_valid {c['vr']} {zl(c['s'])})"
+    if k == 'geom':
+        if c.get('rot') or c.get('sdiv', 4) != 4:
+            return None          # inexact numbers: numpy reference only
+        o = lambda v: 'None' if v is None else f'(Some {zl(v)})'
+        form = c.get('dform', 'list')
+        fclass = 0 if form in ('list', 'tuple', 'flat', 'flat_tuple') else \
+            2 if form in ('f4', 'i8', 'g', 'f8_swapped') else 1
+        dshape = 2 if c.get('badshape') else 1 if form in FLAT_FORMS else 0
+        return (f"(run_affine_components {fclass} {dshape} {o(c.get('dir'))} {o(c.get('orient'))} {zl(c['spacing'])} "
+                f"{o(c.get('pos'))} {o(c.get('center'))} {o(c.get('shape'))})")
     if k == 'uid_uuid':
         return f"(run_uid 0 {zlit(int(c['n']))})"
     if k == 'uid_hd':
@@ -3288,6 +4283,12 @@ def oracle(c, out):
                 return f"{c['vr']} guard accepted {_pystr(c['s'])!r} but pydicom refuses it: {ex}"[:300]
         return None
     if k == 'valid':
+        if c['vr'] in NUMBER_STRING_VRS:
+            lim, rx = NUMBER_STRING_VRS[c['vr']]
+            t = _pystr(c['s'])
+            want = len(t) <= lim and (t == '' or rx.match(t) is not None)
+            return None if out == want else \
+                f"pydicom {c['vr']} validator={out} on {t!r}, the value representation says {want}"
         return None
     if k in ('uid_uuid', 'uid_hd'):
         if isinstance(out, Err):
@@ -3414,6 +4415,24 @@ def oracle(c, out):
         if out[0] != (c['op'] == 'from_nocopy'):
             return 'conversion without copying must return the argument, every other operation a new object'
         return None
+    if k == 'geom':
+        if isinstance(out, Err):
+            return None if _geom_reference(c) is None else \
+                f"valid arguments refused ({out.kind}): direction {c.get('dir')} as {c.get('dform')}, spacing {c['spacing']}"
+        if out[0]:
+            return _GEOM_DETAIL.get('msg') or 'an argument of the caller was modified by the call'
+        return None
+    if k == 'geom_form':
+        if out == 'ok':
+            return None
+        if isinstance(out, Err):
+            # (the documented type of the vector arguments is Sequence[float]; ReferenceToPixelTransformer and
+            #  ReferenceToImageTransformer refuse numpy arrays for them with a TypeError, the others accept them)
+            if out.kind.startswith('baseline') or (c['mform'] in ('f8', 'f8_F', 'f8_view', 'f8_T') and
+                                                   c['vform'] in ('list', 'tuple')):
+                return f"{c['entry']}: valid arguments (matrices as {c['mform']}, vectors as {c['vform']}) refused: {out.kind}"
+            return None
+        return f'unexpected output {out!r}'
     if k == 'seg_plane':
         if isinstance(out, Err):
             return str(out)
@@ -3443,7 +4462,8 @@ def nontrivial(c, out):
         return bool(out) or len(c['s']) > 1
     if k in ('conv',) + CTOR_KINDS:
         return isinstance(out, dict) and out.get('ran', False)
-    if k in ('lut', 'pyr_ids', 'pm_native', 'sop_init', 'seg_measures', 'pr_area', 'pr_voi', 'obj_copy'):
+    if k in ('lut', 'pyr_ids', 'pm_native', 'sop_init', 'seg_measures', 'pr_area', 'pr_voi', 'obj_copy', 'geom',
+             'geom_form'):
         return not isinstance(out, Err)
     if k == 'seg_plane':
         return any(v for px in c['plane'] for v in px)
@@ -3471,6 +4491,20 @@ def shrink(c):
             yield dict(c, vals=c['vals'][:1])
         if c.get('layout', 'C') != 'C':
             yield dict(c, layout='C')
+    if c.get('kind') == 'geom':
+        if c.get('rot'):
+            yield dict(c, rot=None)
+        if c.get('sdiv', 4) != 4:
+            yield dict(c, sdiv=4)
+        for key in ('sform', 'pform'):
+            if c.get(key) != 'list':
+                yield dict(c, **{key: 'list'})
+        if c.get('entry') != 'affine':
+            yield dict(c, entry='affine')
+        if c.get('center') is not None and c.get('pos') is None:
+            yield dict(c, pos=c['center'], center=None)
+    if c.get('kind') == 'ctor_num' and c.get('opt', {}).get('numform') != 'float':
+        yield dict(c, opt=dict(c['opt'], numform='float'))
     if c.get('kind', '').startswith('ctor_') and c.get('opt'):
         for key in ('layout', 'series', 'uids'):
             if c['opt'].get(key) not in (None, 'C'):
